@@ -66,6 +66,42 @@ fn make_cert(cn: &str, key: &PKey<Private>, issuer: Option<(&X509, &PKey<Private
     b.build()
 }
 
+/// certificates with unusual but valid features: variant 0 = plain (EdDSA signature), 1 = X.509 v1 without extensions and a
+/// 20-byte serial, 2 = validity beyond 2050 (GeneralizedTime) with several extensions, 3 = many name attributes (UTF-8)
+fn make_odd_cert(cn: &str, key: &PKey<Private>, variant: u8) -> X509 {
+    use openssl::x509::extension::{ExtendedKeyUsage, KeyUsage, SubjectAlternativeName};
+    let mut b = X509::builder().unwrap();
+    b.set_version(if variant == 1 { 0 } else { 2 }).unwrap();
+    let mut sn = BigNum::new().unwrap();
+    sn.rand(if variant == 1 { 158 } else { 64 }, MsbOption::ONE, false).unwrap();
+    b.set_serial_number(&sn.to_asn1_integer().unwrap()).unwrap();
+    let mut nb = X509NameBuilder::new().unwrap();
+    nb.append_entry_by_text("CN", cn).unwrap();
+    if variant == 3 {
+        nb.append_entry_by_text("O", "Organisation \u{e9}\u{e8} \u{65e5}\u{672c}").unwrap();
+        nb.append_entry_by_text("OU", "unit").unwrap();
+        nb.append_entry_by_text("C", "FR").unwrap();
+        nb.append_entry_by_text("L", &"x".repeat(120)).unwrap();
+    }
+    let n = nb.build();
+    b.set_subject_name(&n).unwrap();
+    b.set_issuer_name(&n).unwrap();
+    b.set_pubkey(key).unwrap();
+    b.set_not_before(&Asn1Time::from_unix(1_600_000_000).unwrap()).unwrap();
+    b.set_not_after(&Asn1Time::days_from_now(if variant == 2 { 20_000 } else { 3650 }).unwrap()).unwrap();
+    if variant == 2 {
+        b.append_extension(BasicConstraints::new().build().unwrap()).unwrap();
+        b.append_extension(KeyUsage::new().critical().digital_signature().key_encipherment().build().unwrap()).unwrap();
+        b.append_extension(ExtendedKeyUsage::new().server_auth().build().unwrap()).unwrap();
+        let ctx = b.x509v3_context(None, None);
+        let san = SubjectAlternativeName::new().dns("rdp.example.org").ip("10.1.2.3").email("a@b.c").build(&ctx).unwrap();
+        b.append_extension(san).unwrap();
+    }
+    let md = if key.id() == openssl::pkey::Id::ED25519 { MessageDigest::null() } else { MessageDigest::sha384() };
+    b.sign(key, md).unwrap();
+    b.build()
+}
+
 fn acceptor(cert: &X509, key: &PKey<Private>) -> SslAcceptor {
     let mut a = SslAcceptor::mozilla_intermediate_v5(SslMethod::tls()).unwrap();
     a.set_private_key(key).unwrap();
@@ -108,6 +144,25 @@ pub fn pki() -> &'static Pki {
         let k = PKey::from_ec_key(ec).unwrap();
         let c = make_cert("rdp-server.p256", &k, None, false, 5);
         ids.push(Identity { name: "p256-self-signed", spk, acceptor: acceptor(&c, &k), cert: c, key: k, trusted: false });
+        // unusual but valid certificates (index >= 4; used by C07 to exercise the client's certificate parser)
+        for (nm, nid) in [("p384-self-signed", Nid::SECP384R1), ("p521-self-signed", Nid::SECP521R1)] {
+            let group = EcGroup::from_curve_name(nid).unwrap();
+            let ec = EcKey::generate(&group).unwrap();
+            let spk = ec.public_key().to_bytes(&group, PointConversionForm::UNCOMPRESSED, &mut ctx).unwrap();
+            let k = PKey::from_ec_key(ec).unwrap();
+            let c = make_cert(nm, &k, None, false, 6);
+            ids.push(Identity { name: nm, spk, acceptor: acceptor(&c, &k), cert: c, key: k, trusted: false });
+        }
+        if let Ok(k) = PKey::generate_ed25519() {
+            let spk = k.raw_public_key().unwrap();
+            let c = make_odd_cert("rdp-server.ed25519", &k, 0);
+            ids.push(Identity { name: "ed25519-self-signed", spk, acceptor: acceptor(&c, &k), cert: c, key: k, trusted: false });
+        }
+        for variant in 1..=3u8 {
+            let k = PKey::from_rsa(Rsa::generate(2048).unwrap()).unwrap();
+            let c = make_odd_cert("rdp-server.odd-\u{e9}\u{4e2d}", &k, variant);
+            ids.push(Identity { name: "rsa2048-odd-certificate", spk: rsa_spk(&k), acceptor: acceptor(&c, &k), cert: c, key: k, trusted: false });
+        }
         Pki { ids }
     })
 }
